@@ -118,7 +118,12 @@ type StrDataV struct{ S string }
 
 // ChanV is a channel that is made and stored but never used by the evaluated code (sends, receives and selects stay
 // outside the evaluated fragment).
-type ChanV struct{ Cap int }
+type ChanV struct {
+	Cap         int
+	Buf         []AV
+	Closed      bool
+	recvWaiting int
+}
 
 // ExtFn is a function value supplied by the rule (a hook, a user's lazy generator): calling it goes to Interp.OnExt.
 type ExtFn struct{ Name string }
@@ -134,6 +139,8 @@ type Interp struct {
 	// Inline: import-path prefixes of library packages whose functions are evaluated like module code
 	Inline   []string
 	MaxDepth int
+	// Sched, when set, gives channels queue semantics and turns go statements into tasks (absint_sched.go)
+	Sched *Sched
 	// OnGoValue, when set, receives the callee value (a closure with its bindings) and arguments of every go statement
 	OnGoValue func(ip *Interp, fv AV, args []AV)
 	// Recover: panics unwind through deferred calls and recover() works (default: a modelled panic ends the evaluation)
@@ -907,6 +914,19 @@ func (ip *Interp) loop(fr *aframe, b *ssa.BasicBlock, cur *ssa.Instruction) AV {
 				}
 				m.M[k] = copyVal(ip.operand(fr, x.Value))
 			case *ssa.Go:
+				if ip.Sched != nil && ip.OnGoValue == nil {
+					cc := x.Call
+					if cc.IsInvoke() {
+						ood("go statement on an interface method")
+					}
+					fv, gargs := ip.calleeValue(fr, &cc), ip.evalArgs(fr, &cc)
+					name := "goroutine"
+					if cl, ok := fv.(*Closure); ok {
+						name = fname(cl.Fn)
+					}
+					ip.Sched.Spawn(name, func() { ip.apply(nil, fv, gargs) })
+					continue
+				}
 				if ip.OnGoValue != nil {
 					cc := x.Call
 					if cc.IsInvoke() {
@@ -927,8 +947,8 @@ func (ip *Interp) loop(fr *aframe, b *ssa.BasicBlock, cur *ssa.Instruction) AV {
 					target, _ = v.Fn.(*ssa.Function)
 				}
 				ip.OnGo(ip, target, ip.evalArgs(fr, &cc))
-			case *ssa.Send, *ssa.Select:
-				ood("concurrency instruction %T", in)
+			case *ssa.Send:
+				ip.chanSend(ip.operand(fr, x.Chan), ip.operand(fr, x.X))
 			case ssa.Value:
 				fr.env[x] = ip.value(fr, x)
 			default:
@@ -1149,6 +1169,8 @@ func (ip *Interp) value(fr *aframe, v ssa.Value) AV {
 			return p.load()
 		case token.NOT:
 			return kBool(!avBool(a))
+		case token.ARROW:
+			return ip.chanRecv(a, ip.zeroOf(chanElem(x.X)), x.CommaOk)
 		case token.SUB:
 			if f, ok := a.(*FloatV); ok {
 				return &FloatV{F: -f.F}
@@ -1303,6 +1325,8 @@ func (ip *Interp) value(fr *aframe, v ssa.Value) AV {
 			return kInt(int64(str[i]))
 		}
 		ood("index of %s", avString(base))
+	case *ssa.Select:
+		return ip.selectOp(fr, x)
 	case *ssa.Lookup:
 		base := ip.operand(fr, x.X)
 		switch m := base.(type) {
@@ -1666,10 +1690,37 @@ func (ip *Interp) builtin(name string, args []AV, cc *ssa.CallCommon) AV {
 			}
 		}
 		return NilV{}
+	case "close":
+		ip.chanClose(args[0])
+		return TupleV{}
+	case "clear":
+		switch x := args[0].(type) {
+		case *MapV:
+			x.M, x.Keys = map[string]AV{}, nil
+			return TupleV{}
+		case *SliceV:
+			var et types.Type
+			if cc != nil && len(cc.Args) == 1 {
+				if sl, ok := cc.Args[0].Type().Underlying().(*types.Slice); ok {
+					et = sl.Elem()
+				}
+			}
+			for i := x.Lo; i < x.Hi; i++ {
+				if et != nil {
+					x.B.cells[i].V = ip.zeroOf(et)
+				} else {
+					x.B.cells[i].V = NilV{}
+				}
+			}
+			return TupleV{}
+		case NilV:
+			return TupleV{}
+		}
+		ood("clear of %s", avString(args[0]))
 	case "len":
 		switch x := args[0].(type) {
 		case *ChanV:
-			return kInt(0)
+			return kInt(int64(len(x.Buf)))
 		case constant.Value:
 			return kInt(int64(len(avStr(x))))
 		case *MapV:
